@@ -24,7 +24,7 @@ RULE = ('history = sequence of operations against a real CourierServer reached t
         'after a shutdown request every answer is the correct value or a retriable TimeoutError; a 60 s watchdog catches hangs); '
         'non-trivial = depth >= 2 with a remote-object hop, or an exception, or a shutdown mid-sequence; distinct = distinct '
         'canonical case JSON'
-        '; also: the low-level call with return_exception / return_none / compress (eval_opts), server stopped and started again (restart), expressions raising their own TimeoutError, shutdown arriving while a gated request executes (both call paths), async_get_result, the same cached array-argument expression evaluated twice, floods of 255..300 remote objects')
+        '; also: the low-level call with return_exception / return_none / compress (eval_opts), server stopped and started again (restart), expressions raising their own TimeoutError, shutdown arriving while a gated request executes (both call paths), async_get_result, the same cached array-argument expression evaluated twice, floods of 255..300 remote objects; the same keywords in both orders both cached on the server; server-held objects made by a factory that returns a lazy object, changed through the remote reference and read back')
 ASSUMPTIONS = [
     'the in-process fake transport reproduces courier\'s observable contract (futures, deadline code 4, handler exceptions as status errors)',
     'server and client share one process, so the expected values come from the C17 eager model, not from a second local evaluation',
@@ -160,7 +160,10 @@ def _client_ops(client, ops, model, what, state):
       check(got == ('value', want), 'remote-value-differs-from-local', f'{w}: remote {got!r}, local evaluation gives {want!r}')
     elif k == 'remote_obj':
       base = op[1]
-      got = answer(lambda: client.get_result(lf.trace(targets.make_counting)(base, lazy_result_=True)))
+      # the factory hands back the instance or, for make_lazy_counting, a lazy object standing for it: either way the server keeps
+      # *the instance*
+      factory = getattr(targets, op[2] if len(op) > 2 else 'make_counting')
+      got = answer(lambda: client.get_result(lf.trace(factory)(base, lazy_result_=True)))
       if got[0] != 'value':
         check(state['shutdown'] and got[0] == 'timeout', 'remote-object-not-created', f'{w}: {got}')
         continue
@@ -367,7 +370,7 @@ def strat(tier):
           st.tuples(st.just('eval'), expr).map(list), st.tuples(st.just('eval'), expr).map(list),
           st.tuples(st.just('eval_async'), expr).map(list),
           st.tuples(st.just('eval_opts'), expr, st.integers(0, 3)).map(list),
-          st.tuples(st.just('remote_obj'), st.integers(0, 5)).map(list),
+          st.tuples(st.just('remote_obj'), st.integers(0, 5), st.sampled_from(['make_counting', 'make_counting', 'make_lazy_counting'])).map(list),
           st.tuples(st.just('eval_arr'), st.sampled_from([[1, 2, 3], [4, 5]]), st.integers(0, 1)).map(list),
           st.tuples(st.just('ro_call'), st.integers(0, 3), st.integers(1, 3)).map(list),
           st.tuples(st.just('ro_attr'), st.integers(0, 3), st.sampled_from(['hits', 'base'])).map(list),
@@ -385,6 +388,16 @@ def strat(tier):
       ops0[:0] = [['remote_obj', 2], ['remote_obj', 3]]
       ops0.insert(draw(st.integers(2, len(ops0))), ['flood_remote', draw(st.sampled_from([255, 256, 257, 300]))])
       ops0 += [['ro_attr', 0, 'base'], ['ro_attr', 1, 'base'], ['ro_call', 0, 1]]
+    if nclients == 1 and draw(st.integers(0, 5)) == 0:
+      # the same keyword arguments in both orders, both cached on the server: two different expressions
+      va, vb = draw(st.integers(0, 5)), draw(st.integers(0, 5))
+      e1 = {'k': 'call', 'fn': 'kw_names', 'args': [], 'kwargs': [['a', {'c': va}], ['b', {'c': vb}]], 'cache': True}
+      e2 = {'k': 'call', 'fn': 'kw_names', 'args': [], 'kwargs': [['b', {'c': vb}], ['a', {'c': va}]], 'cache': True}
+      pos = draw(st.integers(0, len(clients[0])))
+      clients[0][pos:pos] = [['eval', e1], ['eval', e2], ['eval', e1]]
+    if nclients == 1 and draw(st.integers(0, 5)) == 0:
+      # a server-held object made by a factory that returns a lazy object, changed twice through its remote reference, then read
+      clients[0] += [['remote_obj', draw(st.integers(0, 5)), 'make_lazy_counting'], ['ro_call', -1, 1], ['ro_call', -1, 2], ['ro_attr', -1, 'hits']]
     if nclients == 1 and draw(st.integers(0, 5)) == 0:
       pos = draw(st.integers(0, len(clients[0])))
       clients[0][pos:pos] = draw(st.sampled_from([[['restart']], [['shutdown'], ['restart']]]))
